@@ -91,8 +91,9 @@ int main(int argc, char** argv) {
     mjVFS vfs; mj_defaultVFS(&vfs);
     for (auto& fl : files) if (mj_addBufferVFS(&vfs, fl.first.c_str(), fl.second.data(), (int)fl.second.size())) { fprintf(stderr, "harness: cannot add %s to the VFS\n", fl.first.c_str()); return 2; }
     // steps of the case (the minimiser may drop any of them): 0 second compile, 1 copySpec, 2 copyModel, 3 recompile, 4 reparse+compile
-    bool st[5]; for (int i = 0; i < 5; i++) st[i] = !sd::g_args.drop.count(i) && r.chance(0.75);
-    char sc[260]; snprintf(sc, sizeof sc, "meshes=%d (files=%d hulls=%d) textures=%d muscles=%d structure=%d fusestatic=%d cold=%02x steps=%d%d%d%d%d", nmesh, (int)files.size(), (int)collide, ntex, nmuscle, nstruct, (int)fuse, cold, st[0], st[1], st[2], st[3], st[4]);
+    bool st[6]; for (int i = 0; i < 5; i++) st[i] = !sd::g_args.drop.count(i) && r.chance(0.75);
+    st[5] = !sd::g_args.drop.count(5) && rc.chance(0.5);   // 5: edit the spec (new hinged body, new static geom), recompile in place on a stepped mjData
+    char sc[260]; snprintf(sc, sizeof sc, "meshes=%d (files=%d hulls=%d) textures=%d muscles=%d structure=%d fusestatic=%d cold=%02x steps=%d%d%d%d%d%d", nmesh, (int)files.size(), (int)collide, ntex, nmuscle, nstruct, (int)fuse, cold, st[0], st[1], st[2], st[3], st[4], st[5]);
     sd::g_scenario = sc;
     sd::Rng r2(s ^ 0x5DEECE66DULL);
     vsim::Config cfg = sd::swarm(r2, {0, 0, 100, 1000, 10000}, {}, est_len);
@@ -186,6 +187,40 @@ int main(int argc, char** argv) {
       if (cold & 16) clear_cache();
       mjModel* a = mj_compile(s3, &vfs); same(a, "threaded compile of a re-parsed spec");
       mj_deleteModel(a); mj_deleteSpec(s3); sd::probe("reparse_compiles");
+    }
+    if (st[5] && !fuse) {
+      // mj_recompile after an edit: the state of everything that still exists is preserved, and the model equals a fresh compile of the edited spec
+      mjData* d = mj_makeData(m1);
+      for (int i = 0; i < m1->nu; i++) d->ctrl[i] = rc.uniform(0, 1);
+      for (int i = 0; i < m1->nv; i++) d->qvel[i] = rc.uniform(-0.5, 0.5);
+      for (int i = 0, n = rc.range(1, 5); i < n; i++) mj_step(m1, d);
+      int nq = m1->nq, nv = m1->nv, na = m1->na, nu = m1->nu;
+      std::vector<mjtNum> qpos(d->qpos, d->qpos + nq), qvel(d->qvel, d->qvel + nv), act(d->act, d->act + na), ctrl(d->ctrl, d->ctrl + nu);
+      mjtNum t = d->time;
+      mjsBody* w = mjs_findBody(s1, "world");
+      mjsBody* nb = mjs_addBody(w, nullptr); nb->pos[0] = 1.5; nb->pos[2] = 0.7; mjs_setName(nb->element, "edit_body");
+      mjsJoint* nj = mjs_addJoint(nb, nullptr); nj->type = mjJNT_HINGE; nj->axis[0] = 0; nj->axis[1] = 1; nj->axis[2] = 0; mjs_setName(nj->element, "edit_joint");
+      mjsGeom* ng = mjs_addGeom(nb, nullptr); ng->type = mjGEOM_CAPSULE; ng->size[0] = 0.03; ng->size[1] = 0.1;
+      mjsGeom* wg = mjs_addGeom(w, nullptr); wg->type = mjGEOM_BOX; wg->size[0] = wg->size[1] = wg->size[2] = 0.04; wg->pos[0] = -1.5; wg->contype = 0; wg->conaffinity = 0;
+      if (cold & 32) clear_cache();
+      int rcode = mj_recompile(s1, &vfs, m1, d);
+      if (rcode != 0) sd::violation("recompile-failed", "mj_recompile after adding a hinged body and a static geom returned %d: %s", rcode, mjs_getError(s1));
+      if (m1->nq != nq + 1 || m1->nv != nv + 1 || m1->na != na || m1->nu != nu) sd::violation("recompile-state", "sizes after the edit: nq %d->%d nv %d->%d na %d->%d nu %d->%d (expected +1 +1 0 0)", nq, (int)m1->nq, nv, (int)m1->nv, na, (int)m1->na, nu, (int)m1->nu);
+      if (memcmp(&t, &d->time, sizeof t)) sd::violation("recompile-state", "mj_recompile after an edit changed time %.17g -> %.17g", t, d->time);
+      if (nq && memcmp(qpos.data(), d->qpos, nq * sizeof(mjtNum))) sd::violation("recompile-state", "mj_recompile after an edit changed the qpos of joints that still exist");
+      if (nv && memcmp(qvel.data(), d->qvel, nv * sizeof(mjtNum))) sd::violation("recompile-state", "mj_recompile after an edit changed the qvel of joints that still exist");
+      if (na && memcmp(act.data(), d->act, na * sizeof(mjtNum))) sd::violation("recompile-state", "mj_recompile after an edit changed act");
+      if (nu && memcmp(ctrl.data(), d->ctrl, nu * sizeof(mjtNum))) sd::violation("recompile-state", "mj_recompile after an edit changed ctrl");
+      if (d->qpos[nq] != m1->qpos0[nq] || d->qvel[nv] != 0) sd::violation("recompile-state", "the new joint starts at qpos %.17g (qpos0 %.17g), qvel %.17g", d->qpos[nq], m1->qpos0[nq], d->qvel[nv]);
+      // the recompiled model equals a fresh compile of a copy of the edited spec
+      mjSpec* sc3 = mj_copySpec(s1);
+      mjModel* mfresh = sc3 ? mj_compile(sc3, &vfs) : nullptr;
+      if (!mfresh) sd::violation("compile-failed", "a copy of the edited spec does not compile: %s", sc3 ? mjs_getError(sc3) : "mj_copySpec returned NULL");
+      std::vector<char> b1 = model_bytes(m1), b2 = model_bytes(mfresh);
+      if (b1 != b2) sd::violation("model-differs", "mj_recompile of the edited spec and a fresh compile of its copy give different models (%zu vs %zu bytes; first difference in %s)", b1.size(), b2.size(), diff_where(m1, mfresh).c_str());
+      mj_deleteModel(mfresh); mj_deleteSpec(sc3);
+      mj_deleteData(d);
+      sd::probe("edit_recompiles");
     }
     mj_deleteModel(m1); mj_deleteSpec(s1);
     mj_deleteModel(mref); mj_deleteSpec(s0);
